@@ -861,6 +861,12 @@ def c12(ctx):
                        ffm={"curve_number_adj": False, "curve_number_adj_pct": 10.0},
                        irr={"method": 5, "depth": 4.0, "MaxIrr": 25.0, "AppEff": 80.0, "SMT": [55.0, 65.0, 45.0, 35.0], "NetIrrSMT": 70.0},
                        off_season=True))
+    # a dated schedule whose depths exceed the daily maximum, with events outside the window
+    scs.insert(0, dict(id=12904, start="1982/05/01", end="1983/10/30", weather={"kind": "file", "name": "champion_climate.txt"},
+                       soil={"type": "SandyLoam"}, crop={"name": "Maize", "planting": "05/01", "overrides": {}},
+                       irr={"method": 3, "MaxIrr": 25.0, "schedule": [["1982-04-20", 50.0], ["1982-06-10", 60.0], ["1982-06-11", 10.0], ["1982-07-05", 60.0],
+                                                                      ["1982-08-01", 40.0], ["1983-06-15", 60.0], ["1983-07-15", 60.0], ["1984-06-01", 60.0]]},
+                       off_season=False))
     # a user-built weather table (not passed through `prepare_weather`): days with a reference ET below 0.1 mm
     for i, regime in enumerate(["mild", "cold"]):
         scs.insert(0, S.gen_scenario(rng, 12010 + i, dict(crop=["Barley", "Wheat"][i], station="brussels_climate.txt", synth=True, regime=regime,
@@ -1212,6 +1218,15 @@ def c20(ctx):
     rng = np.random.default_rng(seed + 20)
     viols, evals, nontriv = [], 0, 0
     scs = valid_scens(seed + 20, n)
+    # irrigated with a partly wetted surface and an efficiency below 100 % (the settings the neutral mulch / bund / strategy
+    # values interact with), bare soil; and the same for the days outside the season
+    scs.insert(0, dict(id=20900, start="1982/04/15", end="1983/11/30", weather={"kind": "file", "name": "champion_climate.txt"},
+                       soil={"type": "SandyLoam"}, crop={"name": "Maize", "planting": "05/01", "overrides": {}},
+                       irr={"method": 2, "IrrInterval": 5, "MaxIrr": 20.0, "WetSurf": 30.0, "AppEff": 80.0}, off_season=True))
+    scs.insert(1, dict(id=20901, start="1985/10/15", end="1987/08/30", weather={"kind": "file", "name": "tunis_climate.txt"},
+                       soil={"type": "ClayLoam"}, crop={"name": "Wheat", "planting": "10/15", "overrides": {}},
+                       irr={"method": 1, "SMT": [60.0] * 4, "MaxIrr": 30.0, "WetSurf": 50.0, "AppEff": 70.0},
+                       fm={"curve_number_adj": True, "curve_number_adj_pct": 15.0}, off_season=False))
 
     def irr_other(sc):
         m = (sc.get("irr") or {"method": 0})["method"]
